@@ -232,6 +232,25 @@ PARAM_NAMES = ["list", "n", "number", "string", "input", "pattern", "flags", "re
 SMALL = ["null", "0", "1", "-1", "-5", "2", "1.5", "18446744073709551615", "huge", '"abc"', "nuls", '"."', "[1, 2, 3]", 'duration("P2D")', "l", "s"]
 
 
+def _str_pairs():
+    words = ["\u017c\u00f3\u0142w", "a\u20acb", "\U0001F600x", "x\U0001F600", "a\u00e9\U0001F600\u20acz", "e\u0301a", "\u00df\u00df", "\u0130i", "\u20ac\u20ac\u20ac", "ab\u00e9"]
+    out = []
+    for w in words:
+        subs = []
+        for i in range(len(w)):
+            for j in range(i + 1, min(len(w), i + 3) + 1):
+                if w[i:j] not in subs:
+                    subs.append(w[i:j])
+        if w not in subs:
+            subs.append(w)
+        for sub in subs:
+            out.append(('"%s"' % w, '"%s"' % sub))
+    return out
+
+
+STR_PAIRS = _str_pairs()
+
+
 def bif_sweep(rng, bifs, tier):
     out = []
     per3 = 40 if tier == "quick" else 1500
@@ -244,6 +263,14 @@ def bif_sweep(rng, bifs, tier):
         for a in REDUCED:
             for b in REDUCED:
                 out.append("%s(%s, %s)" % (f, a, b))
+        # related strings: the second argument is a prefix / infix / suffix / the whole of the first, over
+        # characters of 1, 2, 3 and 4 UTF-8 bytes (byte offset vs. character count arithmetic)
+        for a, b in STR_PAIRS:
+            out.append("%s(%s, %s)" % (f, a, b))
+            out.append("%s(%s, %s)" % (f, b, a))
+            out.append("%s(%s, %s, %s)" % (f, a, b, '"\u00e9"'))
+            out.append("%s(%s, %s, %s)" % (f, a, b, "2"))
+            out.append("%s(%s, %s, %s)" % (f, a, "2", b))
         # every triple of a small alphabet (positions, lengths, separators: the usual index arithmetic)
         first = ['"abc"', "[1, 2, 3]", "1", "nuls", "null", 'date("2021-01-01")', "10"]
         for a in first:
